@@ -143,8 +143,8 @@ PROPS = {
         "assumptions": COMMON_ASSUME + ["threads are interleaved at visible operations only (sync/atomic, Mutex, Cond, channel, WaitGroup, time.Sleep, go); code between two visible operations of a thread is assumed not to race with other threads", "package context's own synchronisation is trusted: its operations are atomic steps", "sync.Pool (bufPool) is a LIFO free list; time.Sleep = 'time passes when nothing else can run'", "schedule counterexamples are reported from the engine's exploration (kinds assert/deadlock are engine-only for these properties: the native replay cannot force a schedule without instrumenting the diode sources)", "fewer than 2^64 ring positions are claimed in the life of a diode"],
     },
     "C12": {
-        "groups": [{"name": "diode", "tags": "verif", "run": "^VH_C10_((waiter|poller)_(1x1|1x2|1x3|2x1)_s[12]_(fresh|steady)_quiesce|(waiter|poller)_(1x1|1x2|2x1)_s[12]_fresh_close|reenter_(waiter|poller)|failsink_(waiter|poller))$", "flags": {"spin-limit": 200000, "harness-timeout": 200, "max-paths": 150000, "witnesses": 1},
-                    "quick": {"preempt": 2, "run": "^VH_C10_(((poller_(1x1|1x2|1x3|2x1)_s[12]_fresh)|(poller_(1x1|1x2)_s[12]_steady)|(waiter_(1x1|1x2|2x1)_s[12]_fresh))_quiesce|(waiter|poller)_(1x1|1x2)_s1_fresh_close|reenter_(waiter|poller)|failsink_poller)$"}, "thorough": {"preempt": 3, "harness-timeout": 900, "max-paths": 5000000}}],
+        "groups": [{"name": "diode", "tags": "verif", "run": "^VH_C10_((waiter|poller)_(1x1|1x2|1x3|2x1)_s[12]_(fresh|steady)_quiesce|(waiter|poller)_(1x1|1x2|2x1)_s[12]_fresh_close|reenter_(waiter|poller)|failsink_(waiter|poller)|closeidle_(waiter|poller))$", "flags": {"spin-limit": 200000, "harness-timeout": 200, "max-paths": 150000, "witnesses": 1},
+                    "quick": {"preempt": 2, "run": "^VH_C10_(((poller_(1x1|1x2|1x3|2x1)_s[12]_fresh)|(poller_(1x1|1x2)_s[12]_steady)|(waiter_(1x1|1x2|2x1)_s[12]_fresh))_quiesce|(waiter|poller)_(1x1|1x2)_s1_fresh_close|reenter_(waiter|poller)|failsink_poller|closeidle_(waiter|poller))$"}, "thorough": {"preempt": 3, "harness-timeout": 900, "max-paths": 5000000}}],
         "level": "model_checking", "msg_filter": "^C12|^deadlock|^livelock", "engine_only_kinds": ["assert", "deadlock", "panic", "livelock"], "witness_replays": {"quick": 1, "thorough": 1},
         "bounds": {"quick": "quiesce phase: after all Writes returned, with NO later Write or Close, the system runs until no thread can move (the scheduler knows); every message must have been delivered or reported; Close must return in the Close phase (a global deadlock is a violation); configurations as C11",
                    "thorough": "adds 2x2, size 3, preemption bound 3"},
@@ -217,7 +217,7 @@ PROPS = {
         "assumptions": COMMON_ASSUME + ["sync.Pool modelled as a LIFO free list", "bytes.IndexByte modelled as a left-to-right scan"],
     },
     "C04": {
-        "groups": [{"name": "json", "tags": "verif", "run": "^VH_C04_", "flags": {"gen": True}}],
+        "groups": [{"name": "json", "tags": "verif", "run": "^VH_C04_|^VH_C15_history$", "flags": {"gen": True, "params": "ops=4"}}],
         "cross_solver": {"run": "^VH_C04_(should|emit|withlevel_special|panic)$"},
         "level": "model_checking",
         "bounds": {
@@ -344,7 +344,7 @@ HARNESS_FILES = {
     "C01": {"json": _BASE},
     "C02": {"json": _BASE + r"|^_root/zz_verif_c02n?\.go$", "net": _BASE + r"|^_root/zz_verif_c02n?\.go$"},
     "C03": {"json": _BASE + r"|^_root/zz_verif_c03\.go$"},
-    "C04": {"json": _BASE + r"|^_root/zz_verif_c04\.go$"},
+    "C04": {"json": _BASE + r"|^_root/zz_verif_c(04|15)\.go$"},
     "C05": {"json": _BASE + r"|^_root/zz_verif_c0[35]\.go$"},
     "C06": {"json": _BASE + r"|^_root/zz_verif_c(03|05|06|15|16)\.go$"},
     "C08": {"cbor": _CBOR, "wiring": _BASE},
